@@ -130,8 +130,8 @@ class ThreadWorker(Worker):
             self._init_child()
             self._result = (True, self.do_work())
         except BaseException as e:
-            logger.exception('Exception occurred while running the main function')
             self._result = (False, e)
+            logger.exception('Exception occurred while running the main function')
         finally:
             self._cleanup()
 
